@@ -387,6 +387,33 @@ def corpus(spec_id):
         p.add_action(mv); p.add_action(b)
         p.add_goal(em.And(g, em.Equals(loc, objs[1])))
         out.append(HandGen(p, "utfr-old-value-cleared"))
+    if spec_id in ("quantifiers-remover", "pipeline:quantifiers+conditional-effects"):
+        # quantifiers that DECIDE plans: Exists true through one object only, Forall false through one object only, a
+        # forall effect, a quantified effect condition and a quantified state invariant (Layer A round: the generated
+        # problems rarely have a valid plan that depends on a quantifier)
+        for goal_name in ("g", "h", "k"):
+            env, tm, em, T, p, objs = base("qurm-deciding-quantifiers-" + goal_name)
+            pf = bfl(env, tm, p, "p", False, x=T)
+            p.set_initial_value(pf(objs[0]), True)
+            g, h, k = bfl(env, tm, p, "g", False), bfl(env, tm, p, "h", False), bfl(env, tm, p, "k", False)
+            v = Variable("v", T, env)
+            a = InstantaneousAction("ex", _env=env)
+            a.add_precondition(em.Exists(pf(v), v))
+            a.add_effect(g, True)
+            b = InstantaneousAction("al", _env=env)
+            b.add_precondition(em.Forall(pf(v), v))
+            b.add_effect(h, True)
+            c = InstantaneousAction("fill", _env=env)
+            c.add_effect(pf(v), True, forall=[v])
+            c.add_effect(k, True, em.Forall(em.Not(pf(v)), v))
+            d = InstantaneousAction("drop", OrderedDict([("x", T)]), env)
+            d.add_effect(pf(d.parameter("x")), False)
+            for act in (a, b, c, d):
+                p.add_action(act)
+            if goal_name == "k":
+                p.add_state_invariant(em.Exists(em.Or(pf(v), em.Not(g)), v))
+            p.add_goal({"g": g, "h": h, "k": k}[goal_name])
+            out.append(HandGen(p, "qurm-deciding-quantifiers-" + goal_name))
     if spec_id == "trajectory-constraints-remover":
         out += traj_corpus()
     if spec_id in ("grounder", "negative-conditions-remover", "quantifiers-remover"):
